@@ -192,11 +192,11 @@ def call_guard(g: Guard, req: dict, flavour: str = "sync"):
     return g.evaluate_sync(s, a, r, c)
 
 
-def run_guard(policy: dict, req: dict, cfg: dict, flavour: str = "sync") -> dict:
+def run_guard(policy: dict, req: dict, cfg: dict, flavour: str = "sync", cache=None) -> dict:
     """One cold evaluation on a fresh Guard; result in driver shape."""
     events: list = []
     try:
-        g = make_guard(policy, cfg, events, flavour=flavour)
+        g = make_guard(policy, cfg, events, flavour=flavour, cache=cache)
         d = call_guard(g, req, flavour)
     except Exception as e:  # noqa: BLE001
         return {"raised": exc_class(e)}
